@@ -15,9 +15,9 @@ def check(tier, seed):
     plans = [
         dict(flavour="serial", label="serial-small", args=["--threads", 3, "--ops", 3, "--nodes", 4], total=400000 if q else 4000000),
         dict(flavour="serial", label="serial-large", args=["--threads", 4, "--ops", 8, "--nodes", 8, "--budget", 2000000], total=80000 if q else 1000000),
-        dict(flavour="free", label="free", args=["--threads", 8, "--ops", 2000, "--nodes", 48, "--fixed"], total=48 if q else 2000, timeout=300),
-        dict(flavour="tsan", label="free-tsan", args=["--threads", 6, "--ops", 1000, "--nodes", 32, "--fixed"], total=16 if q else 400, timeout=600),
-        dict(flavour="asan", label="free-asan", args=["--threads", 6, "--ops", 1000, "--nodes", 32, "--fixed"], total=16 if q else 400, timeout=600),
+        dict(flavour="free", label="free", args=["--threads", 8, "--ops", 2000, "--nodes", 48, "--fixed"], total=48 if q else 2000, chunk=3, timeout=300),
+        dict(flavour="tsan", label="free-tsan", args=["--threads", 6, "--ops", 1000, "--nodes", 32, "--fixed"], total=16 if q else 400, chunk=1, timeout=600),
+        dict(flavour="asan", label="free-asan", args=["--threads", 6, "--ops", 1000, "--nodes", 32, "--fixed"], total=16 if q else 400, chunk=1, timeout=600),
     ]
     res = run_ds("C29", "h_uf", tier, seed, plans, RULE)
     res.assumptions = ["x86-TSO hardware; weak-memory reorderings are visible only to ThreadSanitizer",
